@@ -332,6 +332,9 @@ class Report:
         unlisted = [o for o in viol if o["key"] not in kf]
         listed = [o for o in viol if o["key"] in kf]
         evdir = os.path.join(VERIF, "evidence")
+        if os.path.abspath(REPO) != "/repo":
+            # a scratch copy is being analysed (selftest): never touch the evidence of the real tree
+            evdir = os.path.join(extract.CACHE, "evidence-" + os.path.basename(extract.facts_dir()))
         os.makedirs(os.path.join(evdir, "replay"), exist_ok=True)
         seen = set()
         for o in listed:
